@@ -76,7 +76,7 @@ impl TemplateParser for SimpleTemplate {
     }
 }
 
-pub struct ExpressionTemplate();
+pub struct ExpressionTemplate(Option<Position>);
 
 impl Default for ExpressionTemplate {
     fn default() -> Self {
@@ -86,13 +86,27 @@ impl Default for ExpressionTemplate {
 
 impl ExpressionTemplate {
     pub fn new() -> Self {
-        ExpressionTemplate()
+        ExpressionTemplate(None)
     }
 
-    fn consume_expr(&self, iter: &mut Chars) -> Result<Expression, Box<dyn Error>> {
+    /// Positions in the embedded expressions are reported relative to the
+    /// position of the template's string literal.
+    pub fn with_pos(mut self, pos: &Position) -> Self {
+        self.0 = Some(pos.clone());
+        self
+    }
+
+    fn consume_expr(
+        &self,
+        iter: &mut Chars,
+        consumed: &mut usize,
+    ) -> Result<Expression, Box<dyn Error>> {
         let mut result = String::new();
         let mut brace_count = 0;
+        // The expression starts after the opening brace.
+        let start = *consumed + 1;
         for c in iter.by_ref() {
+            *consumed += c.len_utf8();
             if c == '{' {
                 brace_count += 1;
                 // We ignore the starting brace
@@ -109,7 +123,21 @@ impl ExpressionTemplate {
             }
             result.push(c);
         }
-        let str_iter = iter::OffsetStrIter::new(&result);
+        let str_iter = match self.0 {
+            // The template starts one column after the opening quote.
+            Some(ref pos) => {
+                let i = iter::OffsetStrIter::new_with_offsets(
+                    &result,
+                    pos.line.saturating_sub(1),
+                    pos.column + start,
+                );
+                match pos.file {
+                    Some(ref file) => i.with_src_file(file.clone()),
+                    None => i,
+                }
+            }
+            None => iter::OffsetStrIter::new(&result),
+        };
         let toks = match tokenizer::tokenize(str_iter, None) {
             Ok(toks) => toks,
             Err(e) => {
@@ -142,12 +170,16 @@ impl TemplateParser for ExpressionTemplate {
         let mut should_escape = false;
         let mut iter = input.chars();
         let mut buf: Vec<char> = Vec::new();
+        let mut consumed = 0;
         while let Some(c) = iter.next() {
+            consumed += c.len_utf8();
             if c == '@' && !should_escape {
                 parts.push(TemplatePart::Str(buf));
                 buf = Vec::new();
                 // consume our expression here
-                parts.push(TemplatePart::Expression(self.consume_expr(&mut iter)?));
+                parts.push(TemplatePart::Expression(
+                    self.consume_expr(&mut iter, &mut consumed)?,
+                ));
             } else if c == '\\' && !should_escape {
                 should_escape = true;
                 continue;
